@@ -17,6 +17,35 @@ import tarfile
 import tempfile
 from unittest import mock
 
+def file_bytes(cid, size=None):
+    """the bytes of the file with content id `cid`: without a size the (short) decimal id, else `size` bytes of a
+    position dependent pattern keyed by the id"""
+    if size is None:
+        return b'%d' % cid
+    out, n = [], 0
+    while n < size:
+        line = b'%d@%d\n' % (cid, n)
+        out.append(line)
+        n += len(line)
+    return b''.join(out)[:size]
+
+
+def known_contents(case):
+    """bytes -> content id for every file the case creates.  Files with identical bytes (size 0, 1, ...) share the
+    smallest id: a content id stands for the exact bytes (size + every byte), nothing else"""
+    ents = [(f[2], f[3] if len(f) > 3 else None) for f in case.get('files', [])]
+    for t in case['tasks']:
+        ents += [(e[1], e[2] if len(e) > 2 else None) for e in t.get('exec', [])]
+    known = {}
+    for cid, size in sorted(ents, key=lambda x: x[0]):
+        known.setdefault(file_bytes(cid, size), cid)
+    return known
+
+
+def canon(known, cid, size=None):
+    return known[file_bytes(cid, size)]
+
+
 SBOX = {'client': 'client', 'resource': 'rsb', 'session': 'rsb/s1', 'pilot': 'rsb/s1/p0'}
 
 
@@ -124,23 +153,26 @@ class Driver:
         return out
 
     def content(self, p):
+        """content id of a file: defined only if its bytes are exactly those of a file of the case"""
+        import hashlib
         data = open(p, 'rb').read()
+        if data in self.known:
+            return ['F', self.known[data]]
         try:
-            return ['F', int(data.decode())]
-        except Exception:
-            pass
-        try:
+            mem = []
             with tarfile.open(p) as tf:
-                mem = []
-                for m in tf.getmembers():
-                    if m.isdir():
-                        mem.append([m.name.rstrip('/'), 'D'])
-                    else:
-                        mem.append([m.name, 'F', int(tf.extractfile(m).read().decode())])
+                try:
+                    for m in tf:
+                        if m.isdir():
+                            mem.append([m.name.rstrip('/'), 'D'])
+                        else:
+                            mem.append([m.name, 'F', self.known.get(tf.extractfile(m).read(), -1)])
+                except Exception:
+                    mem.append(['', 'BROKEN'])
             mem = [[self.sym('/' + m[0])[1:]] + m[1:] for m in mem]
             return ['T', mem]
         except Exception:
-            return ['X', len(data)]
+            return ['X', len(data), hashlib.sha1(data).hexdigest()[:12]]
 
     def payload_op(self, op):
         """what the payload / the user does to the sandboxes besides writing files"""
@@ -159,13 +191,13 @@ class Driver:
         else:
             raise ValueError(op)
 
-    def write(self, sandbox, rel, cid, age=3600):
+    def write(self, sandbox, rel, cid, size=None, age=3600):
         """the data exist for a while when staging starts: a target staged a moment ago is newer"""
         import time
         p = os.path.join(self.root, sbox_rel(sandbox), rel)
         os.makedirs(os.path.dirname(p), exist_ok=True)
-        with open(p, 'w') as f:
-            f.write('%d' % cid)
+        with open(p, 'wb') as f:
+            f.write(file_bytes(cid, size))
         then = self.t_start - age          # all initial files carry the same time stamp
         os.utime(p, (then, then))
 
@@ -184,8 +216,9 @@ class Driver:
             os.makedirs(os.path.join(self.root, s), exist_ok=True)
         for sb, rel in case.get('dirs', []):
             os.makedirs(os.path.join(self.root, sbox_rel(sb), rel), exist_ok=True)
-        for sb, rel, cid in case.get('files', []):
-            self.write(sb, rel, cid)
+        self.known = known_contents(case)
+        for f in case.get('files', []):
+            self.write(f[0], f[1], f[2], f[3] if len(f) > 3 else None)
 
         tree0 = self.tree()
         url = 'file://localhost' + self.root
@@ -249,8 +282,8 @@ class Driver:
             for task in stage:
                 t = task['_case']
                 os.makedirs(task['task_sandbox_path'], exist_ok=True)
-                for rel, cid in t.get('exec', []):
-                    self.write(task['uid'], rel, cid, age=600)
+                for e in t.get('exec', []):
+                    self.write(task['uid'], e[0], e[1], e[2] if len(e) > 2 else None, age=600)
                 for op in t.get('ops', []):
                     self.payload_op(op)
                 task['target_state'] = t['outcome']
